@@ -217,6 +217,34 @@ func batchWL(x *mon.Ctx) {
 				}
 				run("ECB encrypt", gmcipher.NewECBEncrypter(blk), pt, want)
 				run("ECB decrypt", gmcipher.NewECBDecrypter(blk), want, pt)
+				// misaligned buffers: Hi/Lo starts are 16-byte aligned for whole blocks, which would hide an aligned
+				// vector load/store on caller memory (a fault that no output comparison sees)
+				for _, off := range [][2]int{{1, 9}, {8, 24}, {16, 16}, {24, 8}, {31, 1}, {16, 48}}[rep%6 : rep%6+1] {
+					misaligned := func(what string, f func(dst, src []byte), in, exp []byte) {
+						src := g1.Off(len(in), off[0])
+						copy(src, in)
+						dst := src
+						if alias == "disjoint" {
+							dst = g2.Off(len(in), off[1])
+						}
+						if c.Call(what, func() { f(dst, src) }) {
+							cmpBlocks(what, dst, exp)
+						}
+						c.CheckGuards(what, g1, g2)
+						c.Event("misaligned_calls", 1)
+					}
+					tag := fmt.Sprintf(" (src at +%d, dst at +%d)", off[0], off[1])
+					misaligned("ECB encrypt"+tag, gmcipher.NewECBEncrypter(blk).CryptBlocks, pt, want)
+					misaligned("ECB decrypt"+tag, gmcipher.NewECBDecrypter(blk).CryptBlocks, want, pt)
+					if cb, ok := blk.(concurrent); ok && (cb.Concurrency() == n || 2*cb.Concurrency() == n) {
+						misaligned("EncryptBlocks"+tag, cb.EncryptBlocks, pt, want)
+						misaligned("DecryptBlocks"+tag, cb.DecryptBlocks, want, pt)
+					}
+					if n == 1 {
+						misaligned("Encrypt"+tag, blk.Encrypt, pt, want)
+						misaligned("Decrypt"+tag, blk.Decrypt, want, pt)
+					}
+				}
 				// the batch interface, exact batch size only
 				if cb, ok := blk.(concurrent); ok && cb.Concurrency() == n {
 					src := g1.Put(pt, hi)
@@ -308,5 +336,4 @@ func keySizeWL(x *mon.Ctx) {
 		}
 		c.End()
 	}
-	_ = fmt.Sprint
 }
